@@ -24,7 +24,8 @@ REGISTRY = []
 
 class Loop(object):
     def __init__(self, vars=None, inv=None, variant=None, heap=None, ghost=None, elem=None,
-                 done_name="done", note=None):
+                 done_name="done", note=None, hint=None):
+        self.hint = hint
         self.vars = vars or {}
         self.inv = inv
         self.variant = variant
@@ -65,6 +66,9 @@ class Contract(object):
         self.call = d.get("call")                 # optional spec-level driver instead of target(*args)
         self.assumes = d.get("assumes", ())       # named assumptions (strings) this contract relies on
         self.bounded = d.get("bounded")           # text if this is a bounded stand-in, else None
+        self.accepts = d.get("accepts")           # python-level predicate(ctx, ns): typed case selector at call sites
+        self.pre_hints = d.get("pre_hints")       # {callee name: spec fn} proof hints run before proving pre@callee
+        self.pure = d.get("pure")                 # 'str'|'bytes'|'int': result is a function of the arguments
 
 
 def contract(target, prop, name=None, also=()):
